@@ -7,6 +7,14 @@ From PT Require Import Dec IExpr ActEval.
 Definition env_okB (ienv : nat -> IB.type) (env : nat -> R) : Prop :=
   forall n, contains (IB.convert (ienv n)) (Xreal (env n)).
 
+Lemma widen_tiny_sound : forall prec ia e v,
+  contains (IB.convert e) v -> contains (IB.convert (widen_tiny prec ia e)) v.
+Proof.
+  intros prec ia e v H. unfold widen_tiny.
+  destruct (IB.sign_strict _); try exact H.
+  apply IB.join_correct. left. apply IB.join_correct. left. exact H.
+Qed.
+
 Theorem evalB_sound : forall prec ienv env e, env_okB ienv env ->
   contains (IB.convert (evalB prec ienv e)) (evalX env e).
 Proof.
@@ -22,7 +30,7 @@ Proof.
   - apply IB.abs_correct; assumption.
   - apply IB.sqrt_correct; assumption.
   - apply IB.sqr_correct; assumption.
-  - apply IB.exp_correct; assumption.
+  - apply widen_tiny_sound. apply IB.exp_correct; assumption.
   - apply IB.ln_correct; assumption.
   - apply IB.cos_correct; assumption.
   - apply IB.sin_correct; assumption.
